@@ -1224,6 +1224,15 @@ func (c *Compiler) adjustJumpTargets(headerOffset uint32) {
 				binary.LittleEndian.PutUint32(c.code[i:i+4], newTarget)
 			}
 			i += 4
+		} else if opcode == byte(vm.OpAsync) {
+			// The body of an async block follows the operand (its length) and
+			// is executed on its own, from offset 0: the jump targets inside
+			// it are relative to the body and must stay as they are.
+			bodyLen := 0
+			if i+4 <= len(c.code) {
+				bodyLen = int(binary.LittleEndian.Uint32(c.code[i : i+4]))
+			}
+			i += 4 + bodyLen
 		} else if hasOperand(opcode) {
 			// Skip operand for other instructions with operands
 			i += 4
